@@ -118,6 +118,9 @@ def run_history(res, cfg, scratch, rng):
                         noop = True
                 res.seen((cfg_name(cfg), op["op"], noop, pre_model.digest()))
                 label = "noop-write" if noop else "write"
+                if len(res.samples) < 3 and (noop or op["op"] in ("update", "remove")):
+                    res.sample({"config": cfg_name(cfg), "op": op if "q" not in op else dict(op, q=qast.show(op["q"])), "class": label,
+                                "file_before": before["file"], "file_after": after["file"], "temp_dir": after["tmp"], "db_dir": after["dbdir"]})
                 if not judge_op(res, s, w, op, before, after, out, noop, label):
                     return
                 # reads
@@ -209,8 +212,6 @@ def run(res, tier, seed, shard, nshards):
                 run_history(res, cfg, scratch, rng)
         for h in range(max(2, N_HIST[tier] // 3)):
             run_modes(res, scratch, rng_for("C15", tier, seed, shard, "modes", h))
-        if shard == 0:
-            res.sample({"op": "remove(query matching nothing)", "expect": "file sha256 unchanged; temp dir and db dir listings unchanged"})
     for k in ("read", "noop-write", "rejected-write"):
         res.require(f"bytes_unchanged_checks.{k}")
     res.require("listing_checks")
